@@ -499,8 +499,6 @@ Proof.
   - apply av_enc_algs_np.
   - unfold av_enc_bytes. destruct (_ <? _); discriminate.
   - unfold av_enc_bytes. destruct (_ <? _); discriminate.
-  - (* Chan: the slice `&mut raw_value[2..]` comes after the two-byte check *)
-    destruct (N.ltb_spec room 2); [discriminate|]. destruct (_ <? _); discriminate.
 Qed.
 
 (* no value encoder reaches a panic site; `av_inv` = what the Rust types guarantee (ErrorCode holds 300..699) *)
